@@ -46,6 +46,13 @@ def gen_versions(rng):
             ndx += 1
             parents = [DEFV[j] for j in range(i) if rng.random() < 0.6][-2:]
             plan.append(dict(flags=rng.choice([0, 0, 0, 2, 4, 6]), ndx=ndx, names=[DEFV[i]] + parents))
+        var = getattr(rng, 'variant', None)
+        if len(plan) > 2 and (rng.random() < 0.3 or (var is not None and var % 2 == 1)):
+            rest = plan[1:]
+            rng.shuffle(rest)               # the chain order need not follow the indices
+            if [p['ndx'] for p in rest] == sorted(p['ndx'] for p in rest):
+                rest = rest[1:] + rest[:1]
+            plan = plan[:1] + rest
         apart = (rng.random() < 0.3) if getattr(rng, 'variant', None) is None else rng.variant % 3 == 0   # all entries first, then all auxiliary records
         if apart:
             auxpos = 20 * len(plan)
@@ -104,11 +111,16 @@ def gen_versions(rng):
             v = rng.choice(def_idx) if def_idx and rng.random() < 0.8 else rng.choice([0, 1, 1])
             if v > 1 and rng.random() < 0.25:
                 v |= 0x8000
+            if need_idx and rng.random() < 0.2:
+                v = rng.choice(need_idx)        # a copy-relocated object: defined here, versioned by the library it comes from
         vers.append(v)
     versym = b''.join(struct.pack(E + 'H', v) for v in vers)
     symsz = 24 if is64 else 16
     dsz = 16 if is64 else 8
     dyn_at = rng.choice([None, None, 1, 3])
+    null_val = rng.choice([0, 0, 0x1234])
+    vorder = rng.choice([None, None, ['.gnu.version_d', '.gnu.version_r', '.gnu.version'], ['.gnu.version_r', '.gnu.version', '.gnu.version_d']])
+    after_null = [(1, so[LIBS[1]]), (0, 0)] if rng.random() < 0.3 else []
     # addresses in the upper half of the address space (kernel-style images, MIPS kseg0): values are unsigned
     top = 1 << (cls - 1)
     high_tags = [(12, top | 0x1000), (13, (1 << cls) - 16), (3, top)][:rng.choice([0, 0, 1, 3])]
@@ -138,7 +150,8 @@ def gen_versions(rng):
             tags += [(0x6ffffffc, addr.get('.gnu.version_d', 0)), (0x6ffffffd, len(defs))]
         if nneed:
             tags += [(0x6ffffffe, addr.get('.gnu.version_r', 0)), (0x6fffffff, nneed)]
-        tags.append((0, 0))
+        tags.append((0, null_val))            # the terminator ends the array whatever its value
+        tags += after_null
         dyn = b''.join(struct.pack(E + ('qQ' if is64 else 'iI'), t if t < 2 ** 31 or is64 else t - 2 ** 32, v) for t, v in tags)
         secs = [elfgen.Sec('.text', 1, flags=6, data=b'\x90' * 64, addr=addr.get('.text', 0), align=16),
                 elfgen.Sec('.dynsym', 11, flags=2, data=b''.join(syms), link='.dynstr', info=1, entsize=symsz, align=8, addr=addr.get('.dynsym', 0)),
@@ -150,6 +163,11 @@ def gen_versions(rng):
         if nneed:
             secs.append(elfgen.Sec('.gnu.version_r', 0x6ffffffe, flags=2, data=bytes(vn), link='.dynstr', info=nneed, align=8,
                                    addr=addr.get('.gnu.version_r', 0)))
+        if vorder:
+            head = [x for x in secs if not x.name.startswith('.gnu.version')]
+            vs = [x for x in secs if x.name.startswith('.gnu.version')]
+            vs.sort(key=lambda x: vorder.index(x.name) if x.name in vorder else 9)
+            secs[:] = head + vs
         dsec = elfgen.Sec('.dynamic', 6, flags=3, data=dyn, link='.dynstr', entsize=dsz, align=8, addr=addr.get('.dynamic', 0))
         # the order of the section headers is the linker's business: .dynamic need not come after the version sections
         secs.insert(dyn_at if dyn_at is not None else len(secs), dsec)
@@ -191,7 +209,11 @@ def gen_notes_file(rng):
         if k == 'gold':
             return 'gold', note('GNU', 4, b'gold 1.' + str(rng.randrange(10, 20)).encode())
         if k == 'go':
-            return 'go', note('Go', 4, bytes(rng.getrandbits(8) for _ in range(rng.choice([4, 20, 40]))))
+            d = bytes(rng.getrandbits(8) for _ in range(rng.choice([4, 20, 40])))
+            if rng.random() < 0.5:
+                # as the Go linker writes it: n_namesz 4 for "Go\0\0"
+                return 'go4', struct.pack(E + 'III', 4, len(d), 4) + b'Go\0\0' + d
+            return 'go', note('Go', 4, d)
         return 'foreign', note(rng.choice(['vendor', 'ACME', 'x']), rng.choice([1, 2, 3, 0x77, 0x12345]),   # owners GNU readelf has no table for
                                bytes(rng.getrandbits(8) for _ in range(rng.choice([0, 4, 8, 24]))))
     secs = [elfgen.Sec('.text', 1, flags=6, data=b'\x90' * 32, addr=0x1000, align=16)]
@@ -222,7 +244,11 @@ def gen_notes_file(rng):
             rec = struct.pack(E + 'II', pt, len(pd)) + pd
             props += rec + b'\0' * (-len(rec) % pal)
             kinds.append(pk)
-        secs.append(elfgen.Sec('.note.gnu.property', 7, flags=2, data=note('GNU', 5, props, pal), align=pal, addr=addr))
+        pdata = note('GNU', 5, props, pal)
+        if rng.random() < 0.4:
+            pdata += note('GNU', 5, struct.pack(E + 'II', 2, 0) + b'\0' * (pal - 8 if pal > 8 else 0), pal)     # ld -r keeps one note per input
+            kinds.append('second-note')
+        secs.append(elfgen.Sec('.note.gnu.property', 7, flags=2, data=pdata, align=pal, addr=addr))
         shape.append(['property:' + '+'.join(kinds)])
     img, info = elfgen.build(cls=cls, le=le, machine=machine, etype=2, sections=secs)
     return img, dict(cls=cls, le=le, machine=machine, sections=shape)
@@ -302,7 +328,7 @@ def gen_reloc_file(rng, type_tables):
     tab, offs = elfgen.strtab([n.encode() for n in names])
     syms = [elfgen.sym_pack(E, is64, 0, 0, 0, 0, 0, 0),
             elfgen.sym_pack(E, is64, 0, 0, 0, 3, 0, 1),                       # section symbol of .text
-            elfgen.sym_pack(E, is64, 0, 0, 0, 3, 0, 2),                       # section symbol of .data
+            elfgen.sym_pack(E, is64, offs[b'v'] if rng.random() < 0.3 else 0, 0, 0, 3, 0, 2),   # section symbol of .data, sometimes with a name of its own
             elfgen.sym_pack(E, is64, 0, 0x1c, 0, 0, 0, 2)]                    # anonymous local label in .data
     for n in names[1:]:
         syms.append(elfgen.sym_pack(E, is64, offs[n.encode()], rng.choice([0, 0x10, 0x1234]), 4, 0x12 if n != 'table' else 0x11,
@@ -316,7 +342,7 @@ def gen_reloc_file(rng, type_tables):
         for i in range(n):
             t = rng.choice(types)
             s = rng.choice([0] + list(range(1, nsym)))
-            off = rng.choice([0, 4, 8, 0x1c, 0x100])
+            off = rng.choice([0, 4, 8, 0x1c, 0x100] + ([0xffffffff81000018, 2 ** 48 + 8] if is64 else [0x80000010]))
             add = rng.choice([0, 4, -4, -128, 0x7fffffff, -2 ** 31])
             if mips64:
                 # r_sym (32 bits), special symbol, third, second and first type (8 bits each)
@@ -345,6 +371,15 @@ def gen_reloc_file(rng, type_tables):
         r2, s2 = recs(rng.choice([1, 3]))
         secs.append(elfgen.Sec(pre + '.data', 4 if rela else 9, flags=0x40, data=r2, link='.symtab', info='.data', entsize=relsz, align=8))
         shape.append(s2)
+    if rng.random() < 0.4 and not mips64:
+        # a second symbol table with other symbols, used by a relocation section of its own (ld --emit-relocs)
+        dsyms = [elfgen.sym_pack(E, is64, 0, 0, 0, 0, 0, 0), elfgen.sym_pack(E, is64, offs[b'table'], 0x7777, 4, 0x11, 0, 2)]
+        t0 = rng.choice(types)
+        rd = (struct.pack(E + 'QQ', 0x30, (1 << 32) | t0) + (struct.pack(E + 'q', 2) if rela else b'')) if is64 else \
+            (struct.pack(E + 'II', 0x30, (1 << 8) | (t0 & 0xff)) + (struct.pack(E + 'i', 2) if rela else b''))
+        secs.append(elfgen.Sec('.dynsym', 11, flags=2, data=b''.join(dsyms), link='.strtab', info=1, entsize=24 if is64 else 16, align=8))
+        secs.append(elfgen.Sec(pre + '.plt', 4 if rela else 9, flags=0x42, data=rd, link='.dynsym', info='.text', entsize=relsz, align=8))
+        shape.append([(t0, 1, 2)])
     if rng.random() < 0.3 and not mips64:
         # static-PIE style: a dynamic relocation section that names no symbol table (sh_link 0), entries without symbols
         t0 = rng.choice(types)
@@ -377,7 +412,7 @@ def gen_layout_file(rng):
         return bytes(rng.getrandbits(8) for _ in range(n))
     plan = []          # (name, type, flags, size, align, group)
     if rng.random() < 0.7:
-        plan.append(('.interp', 1, 2, 0, 1, 'ro', b'/lib/ld.so.1\0' + b'\0' * rng.choice([0, 0, 3])))
+        plan.append(('.interp', 1, 2, 0, 1, 'ro', rng.choice([b'/lib/ld.so.1', b'/lib/ld.so.1', '/opt/gn\u00fc/ld.so'.encode('utf-8')]) + b'\0' + b'\0' * rng.choice([0, 0, 3])))
     if rng.random() < 0.7:
         plan.append(('.note.gnu.build-id', 7, 2, 0, 4, 'ro',
                      struct.pack(('<' if le else '>') + 'III', 4, 8, 3) + b'GNU\0' + blob(8)))
@@ -399,6 +434,8 @@ def gen_layout_file(rng):
         rw.insert(0, data)
     else:
         rw.append(data)
+        if rng.random() < 0.4 and not empty_rw:
+            rw.append(('.tm_clone_table', 1, 3, 0, 8, 'rw', b''))      # an empty section where the file part of the segment ends
     if rng.random() < 0.8 or empty_rw or tls_last:
         rw.append(('.bss', 8, 3, rng.choice([1, 8, 4096]), 8 if tls_last else rng.choice([1, 8, 32]), 'rw', b''))
     plan += rw
@@ -602,6 +639,8 @@ def gen_header_file(rng, machines, osabis):
     eflags = 0
     if machine == 40:
         eflags = 0x05000000 | rng.choice([0, 0x200, 0x400, 0x400 | 0x800000])
+        if rng.random() < 0.3:
+            eflags = 0              # objects of the old ABI carry no EABI version
     elif machine == 8:
         eflags = rng.choice([0x1000, 0x70001007, 0x80000006, 0x20000000 | 0x1000])
     elif machine == 243:
@@ -614,11 +653,12 @@ def gen_header_file(rng, machines, osabis):
         W = 'qQ' if is64 else 'iI'
         tags = [(5, 0x2000), (6, 0x2100), (10, 8), (11, 24 if is64 else 16)] + ([(0x6ffffffb, 0x08000001)] if pie else [(0x6ffffffb, 1)]) + [(0, 0)]
         dyn = b''.join(struct.pack(E + W, t if t < 2 ** 31 or is64 else t - 2 ** 32, val) for t, val in tags)
+        dname = '.dyn' if rng.random() < 0.25 else '.dynamic'      # a linker script may name the output section differently
         secs += [elfgen.Sec('.dynstr', 3, flags=2, data=b'\0lib.so\0', addr=0x2000),
                  elfgen.Sec('.dynsym', 11, flags=2, data=bytes(24 if is64 else 16), link='.dynstr', info=1, entsize=24 if is64 else 16, addr=0x2100, align=8),
-                 elfgen.Sec('.dynamic', 6, flags=3, data=dyn, link='.dynstr', entsize=16 if is64 else 8, addr=0x3000, align=8)]
+                 elfgen.Sec(dname, 6, flags=3, data=dyn, link='.dynstr', entsize=16 if is64 else 8, addr=0x3000, align=8)]
         segs = [elfgen.Seg(type=1, sec='.dynstr', vaddr=0x2000), elfgen.Seg(type=1, sec='.dynsym', vaddr=0x2100),
-                elfgen.Seg(type=2, sec='.dynamic', vaddr=0x3000)]
+                elfgen.Seg(type=2, sec=dname, vaddr=0x3000)]
     esc = (v >> 2) % 4
     img, info = elfgen.build(cls=cls, le=le, machine=machine, etype=etype, osabi=osabi, abiversion=rng.choice([0, 0, 1, 7]),
                              entry=rng.choice([0, 0x1000, 0x401000, 2 ** (cls - 1) + 0x10]), eflags=eflags, sections=secs, segments=segs,
